@@ -43,7 +43,7 @@ type Closure struct {
 
 type ChanV struct{ id int }
 
-// BigVal stands in for *big.Int inside math.Int / LegacyDec (abstract mathematical integer).
+// BigVal is the content of a math/big.Int cell (abstract mathematical integer); all *big.Int methods are modelled.
 type BigVal struct{ t *Term }
 
 type Unknown struct{ why string }
@@ -313,18 +313,9 @@ func (ex *Exec) eq(a, b Value) *Term {
 		if bc, ok := b.(*ChanV); ok {
 			return c.Bool(a == bc)
 		}
-	case *BigVal:
-		switch b := b.(type) {
-		case *BigVal:
-			// pointer identity of *big.Int: only nil comparisons are meaningful
-			if a == nil || b == nil {
-				return c.Bool(a == nil && b == nil)
-			}
-			return c.Bool(a == b)
-		case *Value:
-			return c.Bool(a == nil && b == nil)
-		case nil:
-			return c.Bool(a == nil)
+	case BigVal:
+		if bb, ok := b.(BigVal); ok {
+			return c.Eq(a.t, bb.t)
 		}
 	case Unknown:
 		ex.incon("comparison on unknown value: %s", a.why)
@@ -352,8 +343,6 @@ func isNilRef(v Value) bool {
 	case *Closure:
 		return v == nil
 	case *ChanV:
-		return v == nil
-	case *BigVal:
 		return v == nil
 	case Iface:
 		return v.t == nil
@@ -427,10 +416,7 @@ func showVal(v Value) string {
 			return "nil-iface"
 		}
 		return "iface(" + v.t.String() + ")"
-	case *BigVal:
-		if v == nil {
-			return "nil-big"
-		}
+	case BigVal:
 		return "big(" + v.t.String() + ")"
 	}
 	return fmt.Sprintf("%T", v)
